@@ -605,16 +605,42 @@ pub fn judge(s: &Scenario, r: &RunResult) -> Judged {
 
     // ---- verdicts, in spawn order; the k-th attempt for a path belongs to the k-th listing of that path
     let verdicts: Vec<Verdict> = hist.iter().map(verdict).collect();
-    let mut listing_of: Vec<Option<usize>> = Vec::new();
+    // Which listing does each process belong to? A path that is listed once is unambiguous. When a path is listed
+    // several times (a compiler may start its generators concurrently, in any order) the arguments a process
+    // received tell the listings apart; failing that, order of appearance.
+    let mut listing_of: Vec<Option<usize>> = vec![None; hist.len()];
     {
-        let mut used: BTreeMap<&str, usize> = BTreeMap::new();
-        for h in &hist {
-            let k = used.entry(h.program.as_str()).or_default();
-            let idx = meta.generators.iter().enumerate().filter(|(_, g)| g.path == h.program).map(|(i, _)| i).nth(*k);
-            *k += 1;
-            listing_of.push(idx);
+        let mut taken: BTreeSet<usize> = BTreeSet::new();
+        let args_of = |h: &GenHistory| -> Option<Vec<(String, String)>> { parse_request(&h.stdin_accepted).ok().map(|r| r.args) };
+        // first pass: exact argument matches
+        for (hi, h) in hist.iter().enumerate() {
+            let candidates: Vec<usize> = meta.generators.iter().enumerate().filter(|(_, g)| g.path == h.program).map(|(i, _)| i).collect();
+            if candidates.len() == 1 {
+                if taken.insert(candidates[0]) {
+                    listing_of[hi] = Some(candidates[0]);
+                }
+                continue;
+            }
+            if let Some(a) = args_of(h) {
+                if let Some(l) = candidates.iter().find(|l| !taken.contains(l) && meta.generators[**l].args == a) {
+                    taken.insert(*l);
+                    listing_of[hi] = Some(*l);
+                }
+            }
+        }
+        // second pass: whatever is left, in order
+        for (hi, h) in hist.iter().enumerate() {
+            if listing_of[hi].is_none() {
+                if let Some(l) = meta.generators.iter().enumerate().filter(|(i, g)| g.path == h.program && !taken.contains(i)).map(|(i, _)| i).next() {
+                    taken.insert(l);
+                    listing_of[hi] = Some(l);
+                }
+            }
         }
     }
+    // replies are applied in the order the generators are LISTED, whatever order they were started or finished in
+    let mut in_list_order: Vec<usize> = (0..hist.len()).collect();
+    in_list_order.sort_by_key(|i| (listing_of[*i].unwrap_or(usize::MAX), *i));
     for vd in &verdicts {
         match vd {
             Verdict::Ok(_) => out.ok_generators += 1,
@@ -649,8 +675,8 @@ pub fn judge(s: &Scenario, r: &RunResult) -> Judged {
     let mut final_bytes: BTreeMap<String, Vec<u8>> = BTreeMap::new();
     let mut all_writes: BTreeMap<String, Vec<Vec<u8>>> = BTreeMap::new();
     let mut reply_path_of: BTreeMap<String, String> = BTreeMap::new();
-    // the compiler collects generators in list order, which is also spawn order
-    for (_h, vd) in hist.iter().zip(&verdicts) {
+    for i in &in_list_order {
+        let vd = &verdicts[*i];
         if let Verdict::Ok(reply) = vd {
             for f in &reply.files {
                 let rp = String::from_utf8_lossy(&f.path).into_owned();
